@@ -229,6 +229,7 @@ impl<'a> GExec<'a> {
                     source_address: "s".to_string(),
                     contract: addr_bytes(&self.principals[4]),
                     payload_hash: keccak(&tag.to_le_bytes()),
+                    account: false,
                 };
                 let d = self.principals[4].clone();
                 self.approve_resolved(ctx, g, &spec, &[m], &[d], None, &["C08", "C01"]);
@@ -747,9 +748,10 @@ impl<'a> GExec<'a> {
                         source_address: String::new(),
                         contract: addr_bytes(&self.principals[4]),
                         payload_hash: [0; 32],
+                        account: false,
                     },
                 };
-                let d = self.addr_of_contract_id(&mm.contract);
+                let d = self.addr_of_msg(&mm);
                 if !self.check_status(ctx, g, &mm, &d, &["C02"]) {
                     return;
                 }
@@ -812,6 +814,10 @@ impl<'a> GExec<'a> {
                 if ctx.stopped() {
                     return;
                 }
+                if m.account {
+                    // approved for an account nobody in the simulation can sign for: nothing to drain
+                    continue;
+                }
                 let dest = self.addr_of_contract_id(&m.contract);
                 let gaddr = self.gws[g].addr.clone();
                 let key = (m.source_chain.clone(), m.message_id.clone());
@@ -865,6 +871,7 @@ impl<'a> GExec<'a> {
                 source_address: "s".to_string(),
                 contract: addr_bytes(&self.principals[5]),
                 payload_hash: keccak(b"tail"),
+                account: false,
             };
             let d = self.principals[5].clone();
             ctx.count("tail.fresh_approval");
